@@ -500,9 +500,12 @@ def finish(pid, tier, seed, merged, mod, t0):
     if missing:
         merged["inconclusive"].append(
             "targeted classes never observed: %s" % missing[:8])
-    for name, minimum in getattr(mod, "MIN_EVALS", {}).items():
-        if tier == "thorough":
-            minimum *= 4
+    mins = dict(getattr(mod, "MIN_EVALS", {}))
+    if tier == "thorough":
+        # random workloads scale with the workers; exhaustive grids do not
+        mins = {k: v * 4 for k, v in mins.items()}
+        mins.update(getattr(mod, "MIN_EVALS_THOROUGH", {}))
+    for name, minimum in mins.items():
         if merged["counters"].get(name, 0) < minimum:
             merged["inconclusive"].append(
                 "monitor %s evaluated %d < %d times" % (
